@@ -23,6 +23,7 @@ EXPLANATION = (
     "(no rename map exists in the flat graph) is reported; (R6) every loop that emits edges while iterating all flat nodes/edges checks the "
     "visibility of the iterated endpoint before emitting; (R7) a producer resolved through the 'deepest producer' map is mapped to its nearest "
     "visible representative instead of being dropped when it sits inside a collapsed inner container. (R8) containment is decided by the parent relation: no function that receives the flat graph takes an identifier apart or compares identifiers by prefix (only the separator-terminated form '<ancestor>/' is accepted), and is_descendant_of returns True only after a parent-chain element compared equal to the ancestor while climbing. R1 also covers the values an edge carries: an endpoint resolver never receives one picked element of the edge's value list (every value is resolved on its own). R4 also requires the name -> id lookup used to translate a nested graph's edges to be built per container (names are unique per graph only)."
+    " R8 also requires that 'consumed outside its container' ranges over the whole flat graph, a consumer counting unless is_descendant_of places it inside the container (not only the container's siblings)."
 )
 NOT_DECIDED = "Faithfulness of the drawn graph as a relation between computed data (that each dependency is drawn and nothing else); layout, styling and the JavaScript front end."
 
@@ -463,6 +464,21 @@ def run(ctx) -> None:
     elif okr and not (loops and pvars and any(isinstance(x, ast.Assign) and isinstance(x.value, ast.Name) and x.value.id in pvars for lp in loops for x in ast.walk(lp))):
         okr, whyr = False, "the parent chain is not climbed (no loop advancing to the parent)"
     rep.add("C20.R8", f"{ido.qname}:parent-chain", okr, ido.loc(), whyr)
+    # 'consumed outside its container' ranges over the whole flat graph: a consumer counts unless the parent chain
+    # places it inside the container — not only the container's siblings (a value produced two levels down and
+    # consumed at the root has no sibling consumer, and still must get its DATA node when the inner container is collapsed)
+    ext = db.func("viz.renderer.scope.is_output_externally_consumed")
+    itervars: set[str] = set()
+    for x in walk_local(ext.node):
+        gens = x.generators if isinstance(x, (ast.GeneratorExp, ast.ListComp, ast.SetComp)) else [x] if isinstance(x, ast.For) else []
+        for g_ in gens:
+            if isinstance(g_.iter, ast.Call) and src(g_.iter.func).endswith(".nodes") and isinstance(g_.target, ast.Tuple) and isinstance(g_.target.elts[0], ast.Name):
+                itervars.add(g_.target.elts[0].id)
+    desc_calls = [c for c in db.calls_in(ext) if "is_descendant_of" in call_names(db, c, ext) and c.args and isinstance(c.args[0], ast.Name) and c.args[0].id in itervars]
+    negated = [c for c in desc_calls if isinstance(getattr(c, "_parent", None), ast.UnaryOp) and isinstance(c._parent.op, ast.Not) or any(a is c and not pol for a, pol in enclosing_facts(c))]
+    parent_eq = [x for x in walk_local(ext.node) if isinstance(x, ast.Compare) and len(x.ops) == 1 and isinstance(x.ops[0], ast.Eq) and any("parent" in src(y) for y in [x.left, x.comparators[0]]) and any(isinstance(y, ast.Call) and isinstance(y.func, ast.Attribute) and y.func.attr == "get" for y in [x.left, x.comparators[0]])]
+    oke = bool(itervars) and bool(negated) and not parent_eq
+    rep.add("C20.R8", f"{ext.qname}:outside-by-parent-chain", oke, ext.loc(), "a consumer anywhere in the flat graph counts unless is_descendant_of places it inside the container" if oke else ("external consumers are selected by comparing a node's parent with one scope: only siblings of the container count, a consumer further out is missed and the value loses its DATA node while edges are still routed through it" if parent_eq else "external consumers are not decided by 'not is_descendant_of(<node>, <container>)' over all nodes of the flat graph"))
     if n8 < 20:
         raise AnalysisError(f"only {n8} flat-graph functions found")
 
@@ -502,4 +518,6 @@ VARIANTS = [
     Variant("mermaid-end-edges-from-hidden-gates", MM, replace_once("        if not is_node_visible(node_id, flat_graph, expansion_state):\n            continue\n\n        emitted = False", "        emitted = False"), {"C20.R6"}),
     Variant("merged-deepest-unmapped", ED, replace_once("                if internal_producer:\n                    # The deepest producer may sit inside a collapsed inner container\n                    internal_producer = nearest_visible(internal_producer, flat_graph, expansion_state)\n", ""), {"C20.R7"}),
     Variant("twin-rename-consumer-list", ED, lambda s: s.replace("internal_consumers", "inner_targets"), set()),
+    Variant("external-consumers-siblings-only", "src/hypergraph/viz/renderer/scope.py", replace_once("        if output_param in attrs.get(\"inputs\", ()) and not is_descendant_of(node_id, source_container, flat_graph):", "        if output_param in attrs.get(\"inputs\", ()) and attrs.get(\"parent\") == get_parent(source_container, flat_graph):"), {"C20.R8"}),
+    Variant("twin-external-consumers-any", "src/hypergraph/viz/renderer/scope.py", replace_once("    for node_id, attrs in flat_graph.nodes(data=True):\n        if output_param in attrs.get(\"inputs\", ()) and not is_descendant_of(node_id, source_container, flat_graph):\n            return True\n\n    return False", "    return any(output_param in attrs.get(\"inputs\", ()) and not is_descendant_of(node_id, source_container, flat_graph) for node_id, attrs in flat_graph.nodes(data=True))"), set()),
 ]
